@@ -39,7 +39,9 @@ DOMAIN = "lh"
 LEVEL = "proof"
 TECHNIQUE = ("Coq refinement proof (LhProofs.v: open-addressing invariant in offset-from-home form, doubly linked order chain, "
              "refinement to an association list, for every hash function) + extracted-model/C differential correspondence")
-RULE = ("mode A: every op sequence of length <= 4 over {add,delete} x 3 keys on each table size 1..8 under 2 hash patterns, "
+RULE = ("small-scope: every public-API history of <= 3 symbols over a 28-symbol alphabet (one symbol per code branch) x 3 configurations, "
+        "of 4 symbols over 12 symbols, and every lh_table_* history of <= 3 symbols over 17 symbols x 6 configurations on tiny colliding "
+        "tables (thorough: 4 symbols over the full alphabets); mode A: every op sequence of length <= 4 over {add,delete} x 3 keys on each table size 1..8 under 2 hash patterns, "
         "lengths 5-6 sampled, + random churn / tombstone / rehash / growth-sweep histories; mode B: random histories through the "
         "public object API under 3 hash selections; a case is non-trivial when some step holds >= 2 live keys and the history "
         "contains a successful delete, replace or table growth; distinct = distinct script lines among those")
@@ -556,6 +558,154 @@ def gen_refused(rng, tier):
     return out
 
 
+# ------------------------------------------------------------------ small-scope enumeration
+SS_B_KEYS = ["61", "-", "6162636465666768696a6b"]          # "a", the empty key, an 11-byte key
+SS_B_CONFIGS = [(2, 1), (0, 2), (1, 1)]                      # (hash selection, initial size); 2 = all keys collide
+
+
+def ss_b_alphabet(reduced=False):
+    al = []
+    for k in (0, 1):
+        if reduced:
+            al += [("a", k, 0), ("a", k, 1), ("d", k), ("s", k, 0), ("x", k)]
+        else:
+            al += [("a", k, 0), ("a", k, 1), ("a", k, 2), ("an", k), ("a!", k), ("d", k),
+                   ("s", k, 0), ("s", k, 2), ("x", k), ("y", k), ("g", k)]
+    if reduced:
+        return al + [("h",), ("o",)]
+    return al + [("a", 2, 0), ("d", 2), ("h",), ("o",), ("x-",), ("q", 0)]
+
+
+def ss_b_line(seq, cfg):
+    """render one public-API history; None when it is inadmissible (KEY_IS_NEW on a present key)"""
+    hsel, size = cfg
+    live = [set(), set()]
+    cur = 0
+    sel = 1 if hsel == 1 else 0
+    ops = []
+    for j, sym in enumerate(seq):
+        c = sym[0]
+        off = (3 * j + (sym[1] if len(sym) > 1 else 0)) % 8
+        d = live[cur]
+        if c == "a":
+            _, k, fl = sym
+            if (fl & 1) and k in d:
+                return None
+            ops.append("a%d,%d,%d@%d" % (k, j + 1, fl, off)); d.add(k)
+        elif c == "an":
+            ops.append("a%d,n,0@%d" % (sym[1], off)); d.add(sym[1])
+        elif c == "a!":
+            ops.append("a%d,%d,0!@%d" % (sym[1], j + 1, off))      # the key copy is refused: only a replace succeeds
+        elif c == "d":
+            ops.append("d%d@%d" % (sym[1], off)); d.discard(sym[1])
+        elif c == "s":
+            ops.append("s%d,%d@%d" % (sym[1], sym[2], off))
+        elif c in "xy":
+            ops.append("%s%d" % (c, sym[1])); d.discard(sym[1])
+        elif c == "x-":
+            ops.append("x-")
+        elif c == "g":
+            ops.append("g%d@%d" % (sym[1], off))
+        elif c == "q":
+            ops.append("q%d@%d" % (sym[1], off))
+        elif c == "h":
+            sel = 1 - sel
+            ops.append("h%d" % sel)
+        elif c == "o":
+            ops.append("o"); cur = 1 - cur
+    keys = SS_B_KEYS if hsel != 2 else [k + "@7" for k in SS_B_KEYS]
+    return "lh B %d %d 0 %s %s" % (hsel, size, ",".join(keys), ";".join(ops))
+
+
+SS_A_CONFIGS = [(1, 0, (0, 0, 0)), (2, 0, (1, 1, 1)), (3, 0, (2, 3, 5)),       # (size, limit, hashes): collide / wrap
+                (1, 2, (5, 5, 5)), (2, 2, (3, 1, 3)), (3, 3, (2, 2, 0))]        # growth refused at the first / second doubling
+SS_A_ALPHABET = ([(c, k) for k in (0, 1, 2) for c in ("a", "d", "i", "x")] + [("I", 0), ("x-",), ("z", 1), ("z", 3), ("z", 8)])
+
+
+def ss_a_line(seq, cfg):
+    """render one lh_table_* history; None when inadmissible (raw insert of a present key, a
+    resize whose refill would grow again).  The shadow follows the growth rule only to know
+    which adds fail under the allocation limit."""
+    size0, limit, hashes = cfg
+    size = size0
+    live = set()
+    ops = []
+
+    def insert_ok():
+        nonlocal size
+        if 100 * len(live) >= 66 * size:
+            if limit and size * 2 > limit:
+                return False
+            size *= 2
+        return True
+    for j, sym in enumerate(seq):
+        c = sym[0]
+        if c == "a":
+            k = sym[1]
+            ops.append("a%d,%d" % (k, j + 1))
+            if k not in live and insert_ok():
+                live.add(k)
+        elif c in "iI":
+            k = sym[1]
+            if k in live:
+                return None
+            ops.append("i%d,%d,%d" % (k, j + 1, 1 if c == "I" else 0))
+            if insert_ok():
+                live.add(k)
+        elif c == "d":
+            ops.append("d%d" % sym[1]); live.discard(sym[1])
+        elif c == "x":
+            ops.append("x%d" % sym[1]); live.discard(sym[1])
+        elif c == "x-":
+            ops.append("x-")
+        elif c == "z":
+            n = sym[1]
+            if not (100 * (len(live) - 1) < 66 * n):
+                return None
+            if limit and n > limit:
+                ops.append("z%d" % n)            # refused by the allocator: nothing changes
+            else:
+                ops.append("z%d" % n); size = n
+    return line_a(size0, limit, hashes, ops)
+
+
+def gen_small(rng, tier):
+    """small-scope exhaustive pass: EVERY history up to the bound over an alphabet in which each
+    symbol selects a different branch (add / replace / KEY_IS_NEW / CONSTANT_KEY / NULL value /
+    refused key copy / delete present+absent / refused self-insertion / delete-current-while-iterating
+    through both macro definitions / every lookup entry point / selection change / second object;
+    raw insert, resize, refused growth), on tiny tables where every insertion is at or next to a growth
+    threshold and all keys collide or wrap.  No randomness: the same cases for every seed."""
+    out = []
+    deep = tier != "quick"
+    # --- public API: <= 3 symbols over the full alphabet under every configuration; 4 symbols over
+    #     the reduced alphabet (quick) / the full alphabet (thorough), configurations in rotation
+    alpha = ss_b_alphabet()
+    for n in (1, 2, 3):
+        for seq in itertools.product(alpha, repeat=n):
+            for cfg in SS_B_CONFIGS:
+                l = ss_b_line(seq, cfg)
+                if l:
+                    out.append((l, {"kind": "small-scope"}))
+    for i, seq in enumerate(itertools.product(alpha if deep else ss_b_alphabet(True), repeat=4)):
+        l = ss_b_line(seq, SS_B_CONFIGS[i % 3])
+        if l:
+            out.append((l, {"kind": "small-scope"}))
+    # --- lh_table_*: <= 3 symbols under every configuration; thorough: 4 symbols, configurations in rotation
+    for n in (1, 2, 3):
+        for seq in itertools.product(SS_A_ALPHABET, repeat=n):
+            for cfg in SS_A_CONFIGS:
+                l = ss_a_line(seq, cfg)
+                if l:
+                    out.append((l, {"kind": "small-scope"}))
+    if deep:
+        for i, seq in enumerate(itertools.product(SS_A_ALPHABET, repeat=4)):
+            l = ss_a_line(seq, SS_A_CONFIGS[i % 6])
+            if l:
+                out.append((l, {"kind": "small-scope"}))
+    return out
+
+
 def gen_hash(rng, tier):
     """the direct hash oracle: both string hashes on the same bytes at all 8 offsets (+ a heap
     duplicate): lengths 0..40 each, longer keys sampled; distinct bytes, any value 1..255"""
@@ -575,7 +725,7 @@ def add_offsets(cases, orng):
     res = []
     for line, meta in cases:
         p = line.split(" ")
-        if p[1] != "B":
+        if p[1] != "B" or meta.get("kind") == "small-scope":      # the enumeration is exact: nothing sprinkled in
             res.append((line, meta)); continue
         nk = len(p[5].split(","))
         ops = []
@@ -611,7 +761,7 @@ def gen(rng, tier):
     import random as _random
     cases = (gen_l(rng, tier) + gen_env(rng, tier) + gen_fdel(rng, tier) + gen_exhaustive(rng, tier)
              + gen_churn_a(rng, tier) + gen_b(rng, tier) + gen_keybytes(rng, tier) + gen_hash(rng, tier)
-             + gen_refused(rng, tier))
+             + gen_refused(rng, tier) + gen_small(rng, tier))
     return add_offsets(cases, _random.Random(rng.random()))
 
 
